@@ -1,0 +1,11 @@
+//go:build verif
+
+package gortsplib
+
+import "time"
+
+// VerifSetTimeNow injects the clock the server reads for its session timeouts (build tag "verif"
+// only; call before Start; nothing here changes behaviour when it is not called).
+func (s *Server) VerifSetTimeNow(f func() time.Time) {
+	s.timeNow = f
+}
